@@ -23,7 +23,7 @@ const panicTag = "C06PANIC"
 var panicKinds = []string{"str", "err", "uerr", "obj", "nilmap", "index", "nilderef", "nil", "custom", "baderr", "slice", "typeassert", "divzero"}
 
 // allKinds additionally has the well-behaved variants.
-var allKinds = append(append([]string{}, panicKinds...), "reterr", "none")
+var allKinds = append(append([]string{}, panicKinds...), "reterr", "retbad", "none")
 
 type customPanic struct{ N int }
 
@@ -72,8 +72,11 @@ func doPanic(kind string) {
 }
 
 func kindErr(kind string) error {
-	if kind == "reterr" {
+	switch kind {
+	case "reterr":
 		return ugo.ErrType.NewError("returned by callback")
+	case "retbad":
+		return badErr{} // an error whose Error method panics
 	}
 	return nil
 }
